@@ -86,6 +86,21 @@ def r1_readers(ctx):
         why = f'the string reader iterates over `{s[:80]}`'
     ctx.check(ok, 'R1', f'{f2.module.relpath}:{o2.lineno}', e2.qualname, 'string-record-splitting',
               "the string reader feeds csv with io.StringIO(text, newline=''): records are split exactly like the file reader", why)
+    # ... and that text is the caller's: the parameter is not re-bound to a rewritten text before the reader sees it
+    rebound = [n for n in walk_local(e2.node) if isinstance(n, (ast.Assign, ast.AugAssign, ast.AnnAssign))
+               and any(isinstance(t, ast.Name) and t.id == p for t in (n.targets if isinstance(n, ast.Assign) else [n.target]))]
+    for n in (rebound if ctx.prop != 'C20' else []):      # C20 compares the file path with the string path: both see the same rewritten text
+        ctx.violation('R1', f'{e2.module.relpath}:{n.lineno}', e2.qualname, 'text-rewritten-before-reader',
+                      f'`{src(n)[:80]}` replaces the text before the line reader sees it: the cells are no longer the literal pieces of the '
+                      f'caller\'s text between tabs and line ends')
+    # the file path hands over what it read, unchanged, when it delegates to the string path
+    e1_ = by['import_file'][0]
+    for ret in [n for n in walk_local(e1_.node) if isinstance(n, ast.Return) and isinstance(n.value, ast.Call)
+                and isinstance(n.value.func, ast.Attribute) and n.value.func.attr == 'import_string' and n.value.args]:
+        a0 = G.substitute(ret.value.args[0], G.single_assignments(e1_.node))
+        okr = isinstance(a0, ast.Call) and isinstance(a0.func, ast.Attribute) and a0.func.attr == 'read' and not a0.args
+        if not okr:
+            raise AnalysisError(f'{e1_.module.relpath}:{ret.lineno}: what import_file hands to import_string (`{src(a0)[:60]}`) is not followed')
     for e in (by['import_file'][0], by['import_string'][0]):
         rets = symex.returns(e)
         ok = len(rets) >= 1 and all(isinstance(v, ast.Call) and (src(v.func) == 'self.run' or (
